@@ -59,6 +59,14 @@ func parseTemplatedElements[T any](in T) (out T, err error) {
 				return out, err
 			}
 		}
+	case map[any]any:
+		// a map with a key that is not a string: its values are resolved like those of any map.
+		for k, el := range v {
+			v[k], err = parseTemplatedElements(el)
+			if err != nil {
+				return out, err
+			}
+		}
 	case []any:
 		for i, el := range v {
 			v[i], err = parseTemplatedElements(el)
